@@ -5,5 +5,6 @@ CONSTANTS
   MaxLen = 0
   Alphabet = {0}
   Repaired = TRUE
+  EOFChecked = TRUE
 INVARIANTS Report ReportDrift
 CHECK_DEADLOCK TRUE
